@@ -148,7 +148,139 @@ def judge_c07(case):
     return _judge_inline("C07", O.c07_inline, case)
 
 
+def judge_c20(case):
+    res, reach, refs = _base(case)
+    findings = judge_monitor("C20", res)
+    for rec in res["log"]:
+        if rec.get("reclimit") is not None and rec.get("reclimit_inside") not in (None, rec["reclimit"]):
+            findings.append(_finding("C20", "recursionlimit-inside-with", rec, f"{rec.get('reclimit_inside')} != {rec['reclimit']}"))
+        if rec["op"] != "solve" or not rec.get("planned"):
+            continue
+        faults = [f for f in rec.get("fired", []) if "fault" in f]
+        if not faults:
+            reach.probe("fault-planned-but-not-reached")
+            continue
+        f = faults[-1]
+        obs = rec.get("obs") or {}
+        evs = rec.get("events") or []
+        left = bool(evs) and evs[-1].get("raised") == f["exc"]
+        reach.judged += 1
+        if not left:
+            reach.probe("fault-swallowed-inside-scipy")
+            continue
+        reach.probe("fault-left-the-solver:" + f["exc"])
+        outcome = obs.get("status") or ("exc:" + str(obs.get("exc")))
+        reach.nontrivial.add((f["fault"], f.get("kind"), f["exc"], evs[-1].get("method"), outcome, bool(rec.get("reclimit")), len(evs)))
+        ok = obs.get("status") == "failed" or obs.get("exc") == f["exc"]
+        if not ok:
+            findings.append(_finding("C20", "fault-outcome", rec, f"injected {f['exc']} at {f['fault']} left the solver, but solve gave {outcome}"))
+    findings += judge_history("C20", case, res, reach, refs, skip_planned=True)
+    return _done(case, res, reach, refs, findings)
+
+
+_PRE_SOLVER_EXC = ("IntegerVariableError", "NonLinearError", "NoObjectiveError")
+
+
+def _relax_warnings(rec):
+    out = []
+    for cat, text in rec.get("warn", []):
+        if cat == "UserWarning" and "integer/binary" in text:
+            i, j = text.find("["), text.rfind("] have")
+            out.append(text[i + 1 : j] if 0 <= i < j else "")
+    return out
+
+
+def _split_names(inside, expected):
+    """Does the bracketed list name exactly `expected` (names may contain commas)?"""
+    return inside == ", ".join(expected) or sorted(_greedy_split(inside)) == sorted(expected)
+
+
+def _greedy_split(inside):
+    parts, depth, cur = [], 0, ""
+    for ch in inside:
+        if ch == "[":
+            depth += 1
+        elif ch == "]":
+            depth -= 1
+        if ch == "," and depth == 0:
+            parts.append(cur.strip())
+            cur = ""
+        else:
+            cur += ch
+    if cur.strip():
+        parts.append(cur.strip())
+    return parts
+
+
+def judge_c18(case):
+    from . import spec as S
+
+    res, reach, refs = _base(case)
+    findings = []
+    # declared attributes of every element reached through every route
+    shadow_attrs = {}
+    for op in case["ops"]:
+        if op[0] == "new_model":
+            shadow_attrs[op[1]] = S.elem_attrs(S.new_shadow(op[2]))
+    for rec in res["log"]:
+        obs = rec.get("obs") or {}
+        if rec["op"] == "read_elems":
+            reach.judged += 1
+            attrs = shadow_attrs[rec["mid"]]
+            for name, lb, ub, dom in obs.get("elems", []):
+                reach.nontrivial.add(("read_elems", dom, name))
+                want = attrs.get(name)
+                if want is None:
+                    findings.append(_finding("C18", "route-element-unknown", rec, f"{name}"))
+                elif dom != want[2] or (dom == "binary" and (lb != 0.0 or ub != 1.0)):
+                    findings.append(_finding("C18", "binary-bounds-or-domain-lost", rec, f"{name}: lb={lb} ub={ub} domain={dom}, declared {want}"))
+            if "exc" in obs:
+                findings.append(_finding("C18", "route-raised", rec, obs["exc"]))
+            continue
+        if rec["op"] != "solve":
+            continue
+        D = rec.get("noncont") or []
+        if not D:
+            continue
+        reach.judged += 1
+        strict = "ref_relaxed" not in rec
+        evs = rec.get("events") or []
+        ent = tuple(e.get("method") for e in evs)
+        a = rec.get("abs")
+        reach.nontrivial.add(("strict" if strict else "relaxed", ent, obs.get("status") or obs.get("exc"), tuple(a) if a else None, len(D)))
+        if strict:
+            if "exc" not in obs:
+                findings.append(_finding("C18", "strict-did-not-raise", rec, f"strict=True returned status {obs.get('status')} with non-continuous {D}"))
+            elif obs["exc"] not in _PRE_SOLVER_EXC:
+                findings.append(_finding("C18", "strict-unexpected-exception", rec, f"{obs['exc']}"))
+            elif obs["exc"] == "IntegerVariableError" and sorted(obs.get("exc_names") or []) != sorted(D):
+                findings.append(_finding("C18", "strict-names", rec, f"listed {obs.get('exc_names')} expected {D}"))
+            if evs or rec.get("seq_delta"):
+                findings.append(_finding("C18", "strict-solver-ran", rec, f"{len(evs)} solver entries before the raise"))
+            if a and a[3]:
+                reach.probe("strict-with-lp-cache-present")
+            if a and a[1]:
+                reach.probe("strict-with-solver-cache-present")
+            continue
+        if "exc" in obs:
+            continue  # no solution returned: nothing was relaxed
+        ws = _relax_warnings(rec)
+        if not ws:
+            findings.append(_finding("C18", "relaxed-without-warning", rec, f"status {obs.get('status')}, non-continuous {D}, no relaxation warning"))
+        for inside in ws:
+            if not _split_names(inside, D):
+                findings.append(_finding("C18", "warning-names", rec, f"warning lists [{inside}] expected {D}"))
+                break
+        ref = refs.get(rec["ref_relaxed"])
+        c = O.compare_with_ref(rec, ref, ("events", "obs"))
+        if c:
+            findings.append(_finding("C18", f"relaxation-differs/{c[0]}", rec, c[1]))
+    return _done(case, res, reach, refs, findings)
+
+
 JUDGES = {
+    "C18": judge_c18,
+    "C20": judge_c20,
     "C06": judge_c06,
     "C07": judge_c07,
     "C14": judge_c14,
